@@ -186,8 +186,10 @@ Definition proc_step (i : nat) (p : proc) (op : pop) : proc * list sout :=
       let '(l1, o1) := if l_closed (p_l p) then (p_l p, [])
                        else read_event h maxdig (p_l p) last in
       let p1 := set_l p l1 in
+      (* drain() guards every dispatcher like the main loop does: an error
+         raised by the write (WErr) ends in handle_error(), which closes that
+         dispatcher; finish() goes on (the dispatchers are dropped below anyway) *)
       match write_event p1 w with
-      | (p2, FErr) => (p2, outs_of i o1 ++ [SRaise])
       | (p2, _) =>
         let st' := if p_killing p then PS_STOPPED else if quick then PS_BACKOFF else PS_EXITED in
         let l2 := p_l p2 in
